@@ -154,6 +154,13 @@ class G:
             rexpr = "range(a, b)"
         else:
             rexpr = "range(a, b, %s)" % ("c" if fixed is None else stepform)
+        if nargs >= 2 and (fixed is not None or nargs == 2) and self.chance(0.3):
+            # compile-time constant bounds (the optimiser computes the reversed() start bound at compile time)
+            self.feats.add("range:const-bounds")
+            st_ = fixed if fixed is not None else 1
+            a0 = r.randint(-4, 6)
+            b0 = a0 + (r.randint(-1, 4) * abs(st_) + self.pick([0, 0, 0, 1, -1])) * (1 if st_ > 0 else -1)
+            rexpr = "range(%d, %d)" % (a0, b0) if nargs == 2 else "range(%d, %d, %s)" % (a0, b0, stepform)
         target = "i"
         it = rexpr
         if wrapper == "reversed":
